@@ -55,7 +55,17 @@ def run(tier, seed, replay=None):
                 np_ = os.path.normpath(path)
                 if np_ in allowed or os.path.normpath(os.path.join(r["dir"], np_)) == os.path.normpath(r["out"]):
                     continue
-                if dbg and (os.path.basename(path).startswith("dbg_") or path.endswith(".gdx")):
+                if dbg and os.path.basename(path).startswith("dbg_"):
+                    continue
+                if dbg and path.endswith(".gdx"):
+                    # the debugger file is the output font's name with its extension (the part after the LAST dot of the
+                    # file name) replaced: next to the output font, nowhere else
+                    outp = os.path.normpath(os.path.relpath(os.path.join(r["dir"], r["out"]), r["dir"]))
+                    base = os.path.basename(outp)
+                    want = os.path.normpath(os.path.join(os.path.dirname(outp), (base.rsplit(".", 1)[0] if "." in base else base) + ".gdx"))
+                    if np_ == want:
+                        continue
+                    problems.append("debugger file written as %s, the output font %s asks for %s" % (path, outp, want))
                     continue
                 # link.ttf / hard.ttf alias in.ttf
                 problems.append("file %s %s" % (path, "created" if b is None else ("deleted" if a is None else "modified")))
